@@ -1,51 +1,85 @@
 package c02
 
 import (
-	"encoding/base64"
+	"encoding/json"
 	"fmt"
+	"math/rand"
 	"os"
 	"path/filepath"
+	"sort"
 	"strings"
+	"sync"
 	"time"
 
 	"github.com/evanw/esbuild/pkg/api"
 
 	"verifharness/core"
 	"verifharness/nodex"
+	"verifharness/tlcrun"
 )
 
 // The data-loader clause: "the value obtained by importing a non-JavaScript
 // file is exactly the file's bytes, text or JSON value".
+//
+// The family of file contents is enumerated by TLC from spec/DataLoad.tla
+// (sequences of atoms over an alphabet of byte classes that interact with
+// string escaping and embedding); the specification states the reference
+// values (bytes; UTF-8 decoding without a leading BOM; the code units a JSON
+// string body denotes) and TLC checks its decoders against the atom table on
+// every content.  Here every content becomes a file (for the json loader: a
+// JSON document with the content as a string value, an object key or the
+// top-level value), is imported / required through every loader, bundled in
+// format x minify x charset x target configurations and the value the bundle
+// yields is compared with the reference (cross-validated with the platform's
+// decoders: TextDecoder, JSON.parse, Buffer, fetch() of data: URLs).
 
-// every byte string of length <= 3 over the alphabet of the property
-func byteStrings() [][]byte {
-	alphabet := [][]byte{{0x00}, {0x41}, {0x80}, {0xEF, 0xBB, 0xBF}, {0xFF}, {0x0A}}
-	out := [][]byte{{}}
-	level := [][]byte{{}}
-	for n := 1; n <= 3; n++ {
-		var next [][]byte
-		for _, p := range level {
-			for _, a := range alphabet {
-				b := append(append([]byte{}, p...), a...)
-				next = append(next, b)
-			}
-		}
-		out = append(out, next...)
-		level = next
-	}
-	return out
+// a CASE record of DataLoad
+type content struct {
+	Spec   string   `json:"spec"`
+	Atoms  []string `json:"atoms"`
+	Bytes  []int    `json:"bytes"`
+	Text   []int    `json:"text"`
+	InJSON bool     `json:"injson"`
+	JSrc   []int    `json:"jsrc"`
+	JText  []int    `json:"jtext"`
 }
 
-// valid JSON documents (the byte alphabet above contains none)
+func (c *content) name() string {
+	if len(c.Atoms) == 0 {
+		return "empty"
+	}
+	return strings.Join(c.Atoms, ".")
+}
+
+// one file of a loader's project
+type dataItem struct {
+	Name  string `json:"name"`            // atoms (and the JSON context)
+	File  string `json:"file"`            // file name in the project directory
+	Ctx   string `json:"ctx,omitempty"`   // json: "top" | "val" | "key" | "doc" (a fixed document, no spec value)
+	Units []int  `json:"units"`           // text / json: the code units the specification predicts
+	Spec  bool   `json:"spec"`            // Units is meaningful
+	bytes []byte
+	atoms []string
+}
+
+func toBytes(v []int) []byte {
+	b := make([]byte, len(v))
+	for i, x := range v {
+		b[i] = byte(x)
+	}
+	return b
+}
+
+// fixed JSON documents (values other than strings: numbers, nesting, special keys)
 func jsonDocs() [][]byte {
 	docs := []string{
 		`null`, `true`, `false`, `0`, `-0`, `1e21`, `1.5`, `1e-7`, `0.1`, `9007199254740993`, `-1E+2`, `1e400`,
-		`""`, `"A"`, `"\u0000"`, `"  "`, `"😀"`, `"\ud800"`, `"</script>"`, "\"é\"", `"\\\"\/\b\f\n\r\t"`, `"é"`,
+		`""`, `"A"`, `"\u0000"`, `"  "`, `"😀"`, `"\ud800"`, `"</script>"`, "\"é\"", `"\\\"\/\b\f\n\r\t"`, `"é"`,
 		`[]`, `{}`, `[[],{}]`, `[1,[2,[3,[4]]]]`, ` [ 1 , 2 ] `, "\n{\n\t\"a\" : 1\n}\n",
 		`{"a":1,"b":[true,null,"x"]}`, `{"__proto__":1}`, `{"__proto__":{"x":1}}`, `{"x":{"__proto__":null}}`,
 		`{"default":1}`, `{"a-b":1,"":2,"0":3}`, `{"a":1,"a":2}`, `{"b":1,"a":2}`, `{"2":1,"1":2}`,
 		`{"constructor":1,"toString":2,"hasOwnProperty":3}`, `{"await":1,"class":2,"var":3,"eval":4,"arguments":5}`,
-		`{"é":1," ":2}`, `["__proto__"]`, `{"then":1}`, `{"exports":1,"module":2,"require":3}`,
+		`{"é":1," ":2}`, `["__proto__"]`, `{"then":1}`, `{"exports":1,"module":2,"require":3}`,
 		"\xef\xbb\xbf{\"bom\":1}",
 	}
 	var out [][]byte
@@ -55,36 +89,166 @@ func jsonDocs() [][]byte {
 	return out
 }
 
+// enumerate runs TLC on DataLoad and returns the contents in a stable order
+func enumerateContents(r *core.Run) []*content {
+	cfg := "DataLoad.quick.cfg"
+	if r.Thorough() {
+		cfg = "DataLoad.thorough.cfg"
+	}
+	var out []*content
+	var mu sync.Mutex
+	res, err := tlcrun.Run(r, tlcrun.Options{Module: "DataLoad", Config: cfg, Workers: r.Pick(1, 2), TimeoutSec: 900,
+		OnCase: func(raw []byte) {
+			var c content
+			if err := json.Unmarshal(raw, &c); err != nil || c.Spec != "DataLoad" {
+				r.Infra("undecodable CASE record of DataLoad: %v", err)
+				return
+			}
+			mu.Lock()
+			out = append(out, &c)
+			mu.Unlock()
+		}})
+	if err != nil {
+		r.Infra("%v", err)
+		return nil
+	}
+	if res.Violated != "" {
+		r.Infra("model DataLoad/%s violates %s on the design alone (spec error, not a verdict):\n%s", cfg, res.Violated, tailLines(res.Output, 40))
+		return nil
+	}
+	seen := map[string]bool{}
+	var uniq []*content
+	for _, c := range out {
+		if !seen[c.name()] {
+			seen[c.name()] = true
+			uniq = append(uniq, c)
+		}
+	}
+	sort.Slice(uniq, func(i, j int) bool {
+		if len(uniq[i].Atoms) != len(uniq[j].Atoms) {
+			return len(uniq[i].Atoms) < len(uniq[j].Atoms)
+		}
+		return uniq[i].name() < uniq[j].name()
+	})
+	r.Logf("TLC DataLoad/%s: %d generated, %d distinct, depth %d, %d contents, %.1fs", cfg, res.Generated, res.Distinct, res.Depth, len(uniq), res.Wall.Seconds())
+	r.Set("tlc_dataload", map[string]interface{}{"config": cfg, "generated": res.Generated, "distinct": res.Distinct, "contents": len(uniq), "wall_s": res.Wall.Seconds()})
+	return uniq
+}
+
+// sample keeps every content of at most short atoms and a seeded sample of n longer ones
+func sampleContents(all []*content, short, n int, rnd *rand.Rand) []*content {
+	var out, long []*content
+	for _, c := range all {
+		if len(c.Atoms) <= short {
+			out = append(out, c)
+		} else {
+			long = append(long, c)
+		}
+	}
+	if n < 0 || n >= len(long) {
+		return append(out, long...)
+	}
+	perm := rnd.Perm(len(long))[:n]
+	sort.Ints(perm)
+	for _, k := range perm {
+		out = append(out, long[k])
+	}
+	return out
+}
+
+// itemsFor builds the file list of one loader
+func itemsFor(r *core.Run, loader string, all []*content) []*dataItem {
+	rnd := rand.New(rand.NewSource(r.Seed*131 + int64(len(loader))))
+	var items []*dataItem
+	add := func(name, ctx string, b []byte, units []int, spec bool, atoms []string) {
+		ext := ".dat"
+		if loader == "json" {
+			ext = ".json"
+		}
+		it := &dataItem{Name: name, File: fmt.Sprintf("f%d%s", len(items), ext), Ctx: ctx, Units: units, Spec: spec, bytes: b, atoms: atoms}
+		if it.Units == nil {
+			it.Units = []int{}
+		}
+		items = append(items, it)
+	}
+	switch loader {
+	case "text":
+		for _, c := range sampleContents(all, 2, r.Pick(-1, 7000), rnd) {
+			add(c.name(), "", toBytes(c.Bytes), c.Text, true, c.Atoms)
+		}
+	case "json":
+		var js []*content
+		for _, c := range all {
+			if c.InJSON {
+				js = append(js, c)
+			}
+		}
+		doc := func(c *content, ctx string) []byte {
+			src := toBytes(c.JSrc)
+			switch ctx {
+			case "val":
+				return append(append([]byte(`{"a":"`), src...), []byte(`"}`)...)
+			case "key":
+				return append(append([]byte(`{"`), src...), []byte(`":1}`)...)
+			}
+			return append(append([]byte(`"`), src...), '"')
+		}
+		for _, c := range sampleContents(js, 2, r.Pick(-1, 7000), rnd) {
+			add(c.name()+"@val", "val", doc(c, "val"), c.JText, true, c.Atoms)
+		}
+		for _, c := range sampleContents(js, 2, r.Pick(200, 1500), rnd) {
+			add(c.name()+"@key", "key", doc(c, "key"), c.JText, true, c.Atoms)
+		}
+		for _, c := range sampleContents(js, 1, r.Pick(150, 1000), rnd) {
+			add(c.name()+"@top", "top", doc(c, "top"), c.JText, true, c.Atoms)
+		}
+		for i, d := range jsonDocs() {
+			add(fmt.Sprintf("doc%d", i), "doc", d, nil, false, nil)
+		}
+	default:
+		// bytes loaders: what is embedded is a base64 / percent-encoded form or a copy of the file
+		n := r.Pick(150, 2500)
+		if loader == "dataurl" {
+			n = r.Pick(400, 4000)
+		}
+		for _, c := range sampleContents(all, 2, n, rnd) {
+			add(c.name(), "", toBytes(c.Bytes), nil, false, c.Atoms)
+		}
+	}
+	return items
+}
+
 type dataCase struct {
 	Loader   string `json:"loader"`
 	Entry    string `json:"entry"` // "esm" (import default) | "cjs" (require)
 	Format   string `json:"format"`
 	Platform string `json:"platform"`
 	Minify   bool   `json:"minify"`
-	Target   bool   `json:"target"` // es2022 target (otherwise esnext, with a Uint8Array.fromBase64 polyfill in the runner)
+	Charset  string `json:"charset"` // "ascii" (default) | "utf8"
+	Target   string `json:"target"`  // "esnext" | "es2022" | "es2015" | "es5" | "notemplate" (esnext with supported: {template-literal: false})
 }
 
+var dataTargets = []string{"esnext", "es2022", "es2015", "es5", "notemplate"}
+
 func (d dataCase) name() string {
-	m, t := "plain", "esnext"
+	m := "plain"
 	if d.Minify {
 		m = "min"
 	}
-	if d.Target {
-		t = "es2022"
-	}
-	return strings.Join([]string{d.Loader, d.Entry, d.Format, d.Platform, m, t}, "-")
+	return strings.Join([]string{d.Loader, d.Entry, d.Format, d.Platform, m, d.Charset, d.Target}, "-")
 }
 
 type dataRun struct {
-	Name     string              `json:"name"`
-	Dir      string              `json:"dir"`
-	File     string              `json:"file"`
-	Format   string              `json:"format"`
-	Global   string              `json:"global,omitempty"`
-	Outdir   string              `json:"outdir"`
-	Loader   string              `json:"loader"`
-	Polyfill bool                `json:"polyfill"`
-	Items    []map[string]string `json:"items"`
+	Name     string `json:"name"`
+	Dir      string `json:"dir"`
+	File     string `json:"file"`
+	Format   string `json:"format"`
+	Global   string `json:"global,omitempty"`
+	Outdir   string `json:"outdir"`
+	Loader   string `json:"loader"`
+	Polyfill bool   `json:"polyfill"`
+	Itemset  string `json:"itemset"`
+	Subset   []int  `json:"subset,omitempty"` // indices into the item set (nil = all)
 	dc       dataCase
 }
 
@@ -97,54 +261,76 @@ type dataResult struct {
 		Want string `json:"want"`
 		Got  string `json:"got"`
 	} `json:"bad"`
+	Drift []struct {
+		I    int    `json:"i"`
+		Spec string `json:"spec"`
+		Plat string `json:"platform"`
+	} `json:"drift"`
 }
 
-func dataItems(loader string) [][]byte {
-	if loader == "json" {
-		return jsonDocs()
-	}
-	return byteStrings()
+type dataProject struct {
+	loader string
+	dir    string
+	items  []*dataItem
 }
 
-// prepareData writes the project of one loader and builds one configuration
-func prepareData(r *core.Run, d dataCase) (*dataRun, string) {
-	items := dataItems(d.Loader)
-	dir := filepath.Join(r.Scratch, "data", d.Loader)
-	ext := ".dat"
-	if d.Loader == "json" {
-		ext = ".json"
+func writeProject(r *core.Run, loader string, items []*dataItem) (*dataProject, error) {
+	dir := filepath.Join(r.Scratch, "data", loader)
+	if err := os.MkdirAll(dir, 0755); err != nil {
+		return nil, err
 	}
-	if _, err := os.Stat(filepath.Join(dir, "entry.mjs")); err != nil {
-		os.MkdirAll(dir, 0755)
-		var esm, cjs strings.Builder
-		cjs.WriteString("module.exports = [\n")
-		for i, b := range items {
-			name := fmt.Sprintf("f%d%s", i, ext)
-			os.WriteFile(filepath.Join(dir, name), b, 0644)
-			fmt.Fprintf(&esm, "import v%d from \"./%s\";\n", i, name)
-			fmt.Fprintf(&cjs, "  require(\"./%s\"),\n", name)
+	for _, it := range items {
+		if err := os.WriteFile(filepath.Join(dir, it.File), it.bytes, 0644); err != nil {
+			return nil, err
 		}
-		esm.WriteString("export default [")
-		for i := range items {
-			fmt.Fprintf(&esm, "v%d,", i)
-		}
-		esm.WriteString("];\n")
-		cjs.WriteString("];\n")
-		os.WriteFile(filepath.Join(dir, "entry.mjs"), []byte(esm.String()), 0644)
-		os.WriteFile(filepath.Join(dir, "entry.cjs"), []byte(cjs.String()), 0644)
 	}
-	outdir := filepath.Join("out", d.name())
+	return &dataProject{loader: loader, dir: dir, items: items}, nil
+}
+
+// entrySource is the entry point that imports (or requires) the items idx and exports the values as an array
+func entrySource(p *dataProject, entry string, idx []int) string {
+	var sb strings.Builder
+	if entry == "cjs" {
+		sb.WriteString("module.exports = [\n")
+		for _, i := range idx {
+			fmt.Fprintf(&sb, "  require(\"./%s\"),\n", p.items[i].File)
+		}
+		sb.WriteString("];\n")
+		return sb.String()
+	}
+	for _, i := range idx {
+		fmt.Fprintf(&sb, "import v%d from \"./%s\";\n", i, p.items[i].File)
+	}
+	sb.WriteString("export default [")
+	for _, i := range idx {
+		fmt.Fprintf(&sb, "v%d,", i)
+	}
+	sb.WriteString("];\n")
+	return sb.String()
+}
+
+// buildData builds one configuration over the items idx (nil = all) into outdir/<sub>
+func buildData(p *dataProject, d dataCase, idx []int, sub string) (*dataRun, string) {
+	subset := idx
+	if idx == nil {
+		idx = make([]int, len(p.items))
+		for i := range idx {
+			idx[i] = i
+		}
+	}
+	outdir := filepath.Join("out", d.name(), sub)
+	src := "entry.mjs"
+	if d.Entry == "cjs" {
+		src = "entry.cjs"
+	}
 	opts := api.BuildOptions{
-		AbsWorkingDir: dir,
-		EntryPoints:   []string{"entry.mjs"},
+		AbsWorkingDir: p.dir,
+		Stdin:         &api.StdinOptions{Contents: entrySource(p, d.Entry, idx), ResolveDir: p.dir, Sourcefile: src, Loader: api.LoaderJS},
 		Bundle:        true,
 		Write:         true,
 		Outdir:        outdir,
 		LogLevel:      api.LogLevelSilent,
 		Loader:        map[string]api.Loader{},
-	}
-	if d.Entry == "cjs" {
-		opts.EntryPoints = []string{"entry.cjs"}
 	}
 	switch d.Loader {
 	case "text":
@@ -160,21 +346,22 @@ func prepareData(r *core.Run, d dataCase) (*dataRun, string) {
 	case "json":
 		opts.Loader[".json"] = api.LoaderJSON
 	}
-	run := &dataRun{Name: d.name(), Dir: dir, Format: d.Format, Outdir: outdir, Loader: d.Loader, Polyfill: !d.Target, dc: d}
+	run := &dataRun{Name: d.name() + "/" + sub, Dir: p.dir, Format: d.Format, Outdir: outdir, Loader: d.Loader,
+		Polyfill: d.Target == "esnext" || d.Target == "notemplate", Itemset: d.Loader, Subset: subset, dc: d}
 	switch d.Format {
 	case "esm":
 		opts.Format = api.FormatESModule
 		opts.OutExtension = map[string]string{".js": ".mjs"}
-		run.File = filepath.Join(outdir, "entry.mjs")
+		run.File = filepath.Join(outdir, "stdin.mjs")
 	case "cjs":
 		opts.Format = api.FormatCommonJS
 		opts.OutExtension = map[string]string{".js": ".cjs"}
-		run.File = filepath.Join(outdir, "entry.cjs")
+		run.File = filepath.Join(outdir, "stdin.cjs")
 	case "iife":
 		opts.Format = api.FormatIIFE
-		opts.GlobalName = "D_" + strings.ReplaceAll(d.name(), "-", "_")
+		opts.GlobalName = "D_" + strings.NewReplacer("-", "_", "/", "_").Replace(d.name()+"_"+sub)
 		run.Global = opts.GlobalName
-		run.File = filepath.Join(outdir, "entry.js")
+		run.File = filepath.Join(outdir, "stdin.js")
 	}
 	switch d.Platform {
 	case "node":
@@ -184,8 +371,18 @@ func prepareData(r *core.Run, d dataCase) (*dataRun, string) {
 	case "neutral":
 		opts.Platform = api.PlatformNeutral
 	}
-	if d.Target {
+	switch d.Target {
+	case "es2022":
 		opts.Target = api.ES2022
+	case "es2015":
+		opts.Target = api.ES2015
+	case "es5":
+		opts.Target = api.ES5
+	case "notemplate":
+		opts.Supported = map[string]bool{"template-literal": false}
+	}
+	if d.Charset == "utf8" {
+		opts.Charset = api.CharsetUTF8
 	}
 	if d.Minify {
 		opts.MinifyWhitespace, opts.MinifyIdentifiers, opts.MinifySyntax = true, true, true
@@ -193,7 +390,10 @@ func prepareData(r *core.Run, d dataCase) (*dataRun, string) {
 	res := api.Build(opts)
 	if len(res.Errors) > 0 {
 		var msgs []string
-		for _, e := range res.Errors {
+		for i, e := range res.Errors {
+			if i >= 3 {
+				break
+			}
 			loc := ""
 			if e.Location != nil {
 				loc = e.Location.File + ": "
@@ -202,118 +402,264 @@ func prepareData(r *core.Run, d dataCase) (*dataRun, string) {
 		}
 		return nil, strings.Join(msgs, "; ")
 	}
-	for _, b := range items {
-		run.Items = append(run.Items, map[string]string{"b64": base64.StdEncoding.EncodeToString(b)})
-	}
 	return run, ""
 }
 
 func dataKey(d dataCase) map[string]interface{} {
-	return map[string]interface{}{"kind": "data", "loader": d.Loader, "entry": d.Entry, "format": d.Format, "platform": d.Platform, "minify": d.Minify, "target": d.Target}
+	return map[string]interface{}{"kind": "data", "loader": d.Loader, "entry": d.Entry, "format": d.Format, "platform": d.Platform, "minify": d.Minify, "charset": d.Charset, "target": d.Target}
 }
 
-func runDataCases(r *core.Run, cases []dataCase) {
-	var runs []*dataRun
-	for _, d := range cases {
-		run, berr := prepareData(r, d)
-		if berr != "" {
-			what := "esbuild rejects a project that only imports data files: " + berr
-			r.Violation(dataKey(d), what, map[string]interface{}{"data_case": d, "what": what})
-			continue
-		}
-		runs = append(runs, run)
-	}
-	var out struct {
-		Runs []dataResult `json:"runs"`
-	}
-	out.Runs = make([]dataResult, len(runs))
-	const chunk = 24
+// execRuns executes bundles in Node (chunks of runs side by side)
+func execRuns(r *core.Run, projects map[string]*dataProject, runs []*dataRun) ([]dataResult, bool) {
+	out := make([]dataResult, len(runs))
+	const chunk = 12
 	nchunks := (len(runs) + chunk - 1) / chunk
 	failed := false
+	var mu sync.Mutex
 	core.Parallel(nchunks, 6, func(c int) {
 		lo, hi := c*chunk, (c+1)*chunk
 		if hi > len(runs) {
 			hi = len(runs)
 		}
+		sets := map[string][]*dataItem{}
+		for _, run := range runs[lo:hi] {
+			sets[run.Itemset] = projects[run.Itemset].items
+		}
 		var part struct {
 			Runs []dataResult `json:"runs"`
 		}
-		if err := nodex.Run(r, "run_data.js", map[string]interface{}{"runs": runs[lo:hi]}, &part, 10*time.Minute, r.Scratch); err != nil || len(part.Runs) != hi-lo {
+		if err := nodex.Run(r, "run_data.js", map[string]interface{}{"itemsets": sets, "runs": runs[lo:hi]}, &part, 15*time.Minute, r.Scratch); err != nil || len(part.Runs) != hi-lo {
 			r.Infra("data loaders: %v (%d results for %d runs)", err, len(part.Runs), hi-lo)
+			mu.Lock()
 			failed = true
+			mu.Unlock()
 			return
 		}
-		copy(out.Runs[lo:hi], part.Runs)
+		copy(out[lo:hi], part.Runs)
 	})
-	if failed {
+	return out, !failed
+}
+
+func itemKey(d dataCase, it *dataItem) map[string]interface{} {
+	key := dataKey(d)
+	key["content"] = it.Name
+	key["bytes"] = fmt.Sprintf("%x", it.bytes)
+	if d.Loader == "json" && strings.Contains(string(it.bytes), `"__proto__":`) {
+		key["json_proto_key"] = true // the document has an own property named __proto__
+	}
+	return key
+}
+
+// narrow finds the files that make a whole bundle fail to load: chunks of 48
+// items first, then single items of the failing chunks
+func narrow(r *core.Run, projects map[string]*dataProject, d dataCase, whole string) {
+	p := projects[d.Loader]
+	reported := 0
+	report := func(it *dataItem, msg string) {
+		key := itemKey(d, it)
+		key["kind"] = "data-load"
+		what := fmt.Sprintf("loader %s (%s): the bundle that imports the file %s (bytes %x) cannot be loaded: %s", d.Loader, d.name(), it.Name, it.bytes, msg)
+		r.Violation(key, what, map[string]interface{}{"data_case": d, "content": it.Name, "atoms": it.atoms, "bytes_hex": fmt.Sprintf("%x", it.bytes), "what": what})
+		reported++
+	}
+	level := func(groups [][]int, tag string) [][]int {
+		var runs []*dataRun
+		var kept [][]int
+		for gi, g := range groups {
+			run, berr := buildData(p, d, g, fmt.Sprintf("%s%d", tag, gi))
+			if berr != "" {
+				continue
+			}
+			runs = append(runs, run)
+			kept = append(kept, g)
+		}
+		res, ok := execRuns(r, projects, runs)
+		if !ok {
+			return nil
+		}
+		var bad [][]int
+		for i := range res {
+			if res[i].Error != nil {
+				bad = append(bad, kept[i])
+			}
+		}
+		return bad
+	}
+	var groups [][]int
+	for i := 0; i < len(p.items); i += 48 {
+		var g []int
+		for j := i; j < i+48 && j < len(p.items); j++ {
+			g = append(g, j)
+		}
+		groups = append(groups, g)
+	}
+	bad := level(groups, "n")
+	if len(bad) > 4 {
+		bad = bad[:4]
+	}
+	var singles [][]int
+	for _, g := range bad {
+		for _, i := range g {
+			singles = append(singles, []int{i})
+		}
+	}
+	for _, g := range level(singles, "s") {
+		if reported < 6 {
+			report(p.items[g[0]], whole)
+		}
+	}
+	if reported == 0 {
+		what := fmt.Sprintf("data loader %s: %s", d.name(), whole)
+		key := dataKey(d)
+		key["kind"] = "data-load"
+		r.Violation(key, what, map[string]interface{}{"data_case": d, "what": what})
+	}
+}
+
+func runDataCases(r *core.Run, projects map[string]*dataProject, cases []dataCase) {
+	built := make([]*dataRun, len(cases))
+	berrs := make([]string, len(cases))
+	core.Parallel(len(cases), 4, func(i int) {
+		built[i], berrs[i] = buildData(projects[cases[i].Loader], cases[i], nil, "all")
+	})
+	var runs []*dataRun
+	for i, d := range cases {
+		if berrs[i] != "" {
+			what := "esbuild rejects a project that only imports data files: " + berrs[i]
+			key := dataKey(d)
+			key["kind"] = "data-build"
+			r.Violation(key, what, map[string]interface{}{"data_case": d, "what": what})
+			continue
+		}
+		runs = append(runs, built[i])
+	}
+	results, ok := execRuns(r, projects, runs)
+	if !ok {
 		return
 	}
 	sampled := map[string]bool{}
-	for i, res := range out.Runs {
+	checked := 0
+	byTarget, byCharset := map[string]int{}, map[string]int{}
+	for i, res := range results {
 		d := runs[i].dc
-		items := dataItems(d.Loader)
+		items := projects[d.Loader].items
+		byTarget[d.Target]++
+		byCharset[d.Charset]++
 		if res.Error != nil {
-			what := fmt.Sprintf("data loader %s: %s", d.name(), *res.Error)
-			r.Violation(dataKey(d), what, map[string]interface{}{"data_case": d, "what": what})
+			narrow(r, projects, d, *res.Error)
 			continue
 		}
+		for _, dr := range res.Drift {
+			r.Drift("data loader %s file %s: DataLoad predicts %s, the platform decodes %s", d.Loader, items[dr.I].Name, dr.Spec, dr.Plat)
+		}
 		bad := map[int]bool{}
-		for _, b := range res.Bad {
+		for n, b := range res.Bad {
 			bad[b.I] = true
-			key := dataKey(d)
-			key["bytes"] = fmt.Sprintf("%x", items[b.I])
-			what := fmt.Sprintf("loader %s (%s): importing the file with bytes %x yields %s, expected %s", d.Loader, d.name(), items[b.I], b.Got, b.Want)
-			r.Violation(key, what, map[string]interface{}{"data_case": d, "bytes_hex": fmt.Sprintf("%x", items[b.I]), "want": b.Want, "got": b.Got, "what": what})
+			if n >= 8 {
+				continue
+			}
+			it := items[b.I]
+			key := itemKey(d, it)
+			what := fmt.Sprintf("loader %s (%s): importing the file %s with bytes %x yields %s, expected %s", d.Loader, d.name(), it.Name, it.bytes, b.Got, b.Want)
+			r.Violation(key, what, map[string]interface{}{"data_case": d, "content": it.Name, "atoms": it.atoms, "bytes_hex": fmt.Sprintf("%x", it.bytes), "want": b.Want, "got": b.Got, "what": what})
 		}
 		for j := range items {
 			if !bad[j] {
-				// a data import is non-trivial by the rule of A.6; distinct by (loader, bytes, how it is imported)
-				r.Case(fmt.Sprintf("data:%s:%s:%x", d.Loader, d.Entry, items[j]), true)
+				// a data import is non-trivial by the rule of A.6; distinct by (loader, content, how it is imported)
+				r.Case("data:"+d.Loader+":"+d.Entry+":"+items[j].Name, true)
 			}
 		}
+		checked += res.Checked
 		r.AddTraces(1)
 		if !sampled[d.Loader] {
 			sampled[d.Loader] = true
-			r.Sample(map[string]interface{}{"data_loader": d.Loader, "config": d.name(), "files": len(items), "example_bytes_hex": fmt.Sprintf("%x", items[len(items)/2])})
+			it := items[len(items)/2]
+			r.Sample(map[string]interface{}{"data_loader": d.Loader, "config": d.name(), "files": len(items), "example_content": it.Name, "example_bytes_hex": fmt.Sprintf("%x", it.bytes)})
 		}
 	}
-	r.Logf("data loaders: %d bundles, %d imports checked", len(runs), func() (n int) {
-		for _, x := range out.Runs {
-			n += x.Checked
-		}
-		return
-	}())
+	r.Set("data_bundles_by_target", byTarget)
+	r.Set("data_bundles_by_charset", byCharset)
+	r.Logf("data loaders: %d bundles, %d imports checked", len(runs), checked)
 }
 
-func runDataLoaders(r *core.Run) {
-	var cases []dataCase
-	loaders := []string{"text", "base64", "binary", "dataurl", "file", "json"}
-	platforms := []string{"node", "browser", "neutral"}
+func dataProjects(r *core.Run, loaders []string, all []*content) map[string]*dataProject {
+	if all == nil {
+		return nil
+	}
+	projects := map[string]*dataProject{}
+	files := map[string]int{}
 	for _, l := range loaders {
-		for _, entry := range []string{"esm", "cjs"} {
-			for _, f := range []string{"esm", "cjs", "iife"} {
-				if !r.Thorough() {
-					// quick: every loader x entry x format once; platform, minify and target seeded
-					cases = append(cases, dataCase{l, entry, f, platforms[r.Rand.Intn(3)], r.Rand.Intn(2) == 0, r.Rand.Intn(2) == 0})
-					continue
-				}
-				for _, p := range platforms {
-					for _, m := range []bool{false, true} {
-						for _, t := range []bool{true, false} {
-							if !t && l != "binary" && l != "base64" {
-								continue // the language target only matters for how bytes are embedded
-							}
-							cases = append(cases, dataCase{l, entry, f, p, m, t})
-						}
+		p, err := writeProject(r, l, itemsFor(r, l, all))
+		if err != nil {
+			r.Infra("cannot write the data project: %v", err)
+			return nil
+		}
+		projects[l] = p
+		files[l] = len(p.items)
+	}
+	r.Set("data_files_by_loader", files)
+	return projects
+}
+
+func runDataLoaders(r *core.Run, all []*content) {
+	loaders := []string{"text", "json", "dataurl", "base64", "binary", "file"}
+	projects := dataProjects(r, loaders, all)
+	if projects == nil {
+		return
+	}
+	platforms := []string{"node", "browser", "neutral"}
+	var cases []dataCase
+	for li, l := range loaders {
+		stringy := l == "text" || l == "json" || l == "dataurl"
+		if !r.Thorough() {
+			// quick: every loader x entry x format once; within a loader the six
+			// bundles go through all of minify x charset and all targets (seeded rotation)
+			o1, o2, o3 := r.Rand.Intn(4), r.Rand.Intn(5), r.Rand.Intn(3)
+			j := 0
+			for _, entry := range []string{"esm", "cjs"} {
+				for _, f := range []string{"esm", "cjs", "iife"} {
+					mc := (j + o1) % 4
+					cs := "ascii"
+					if mc/2 == 1 {
+						cs = "utf8"
 					}
+					cases = append(cases, dataCase{l, entry, f, platforms[(j+o3+li)%3], mc%2 == 1, cs, dataTargets[(j+o2)%5]})
+					j++
+				}
+			}
+			continue
+		}
+		// thorough: format x minify x target in full; the charset alternates so that
+		// every (minify, target) pair meets both charsets (in different formats)
+		j := 0
+		for fi, f := range []string{"esm", "cjs", "iife"} {
+			for mi, m := range []bool{false, true} {
+				for ti, t := range dataTargets {
+					cs := "ascii"
+					if stringy && (fi+mi+ti)%2 == 1 {
+						cs = "utf8"
+					}
+					if !stringy && (t == "es2015" || t == "notemplate") {
+						continue // template literals only matter where a string is embedded
+					}
+					entry := "esm"
+					if j%2 == 1 {
+						entry = "cjs"
+					}
+					cases = append(cases, dataCase{l, entry, f, platforms[j%3], m, cs, t})
+					j++
 				}
 			}
 		}
 	}
-	runDataCases(r, cases)
+	runDataCases(r, projects, cases)
 	r.Set("data_loader_bundles", len(cases))
 }
 
 func runDataCase(r *core.Run, d dataCase) {
-	runDataCases(r, []dataCase{d})
+	projects := dataProjects(r, []string{d.Loader}, enumerateContents(r))
+	if projects == nil {
+		return
+	}
+	runDataCases(r, projects, []dataCase{d})
 }
